@@ -307,6 +307,48 @@ def hash_env_source():
     return out
 
 
+@structural("C04/scan/recycle_compares_every_declared_ingredient", props=["C04", "C08"],
+            note="a detached step is recycled with its stored hash only if its declared (non-dynamic) inputs, environment "
+                 "variables, outputs and volatile outputs all equal those of the new declaration: Step.can_recycle compares "
+                 "each of the four parameters, sorted, with the stored non-dynamic list of the same kind, and returns False on "
+                 "the first difference (generated from the AST of Step.can_recycle)")
+def recycle_compares_every_declared_ingredient():
+    _, fn = extract.find_def("stepup/core/step.py", "Step.can_recycle")
+    out = []
+    # locals bound to sorted(<something built from self.<method>(dynamic=False)>)
+    stored = {}
+    for n in ast.walk(fn):
+        if isinstance(n, ast.Assign) and len(n.targets) == 1 and isinstance(n.targets[0], ast.Name):
+            calls = [c for c in ast.walk(n.value) if isinstance(c, ast.Call) and isinstance(c.func, ast.Attribute)
+                     and isinstance(c.func.value, ast.Name) and c.func.value.id == "self"]
+            for c in calls:
+                nondyn = any(k.arg == "dynamic" and isinstance(k.value, ast.Constant) and k.value.value is False for k in c.keywords)
+                is_sorted = isinstance(n.value, ast.Call) and ast.unparse(n.value.func) == "sorted"
+                if nondyn and is_sorted:
+                    stored[n.targets[0].id] = c.func.attr
+    compared = {}
+    for n in ast.walk(fn):
+        if isinstance(n, ast.Compare) and len(n.ops) == 1 and isinstance(n.ops[0], (ast.Eq, ast.NotEq)):
+            sides = [n.left, n.comparators[0]]
+            names = [x.id for x in sides if isinstance(x, ast.Name) and x.id in stored]
+            params = [ast.unparse(x.args[0]) for x in sides if isinstance(x, ast.Call) and ast.unparse(x.func) == "sorted"
+                      and len(x.args) == 1 and isinstance(x.args[0], ast.Name)]
+            if len(names) == 1 and len(params) == 1:
+                compared[params[0]] = stored[names[0]]
+    want = dict(inp_paths="inp_paths", env_deps="env_deps", out_paths="out_paths", vol_paths="vol_paths")
+    for param, method in want.items():
+        out.append((f"scan/recycle_compares/{param}", compared.get(param) == method,
+                    f"parameter {param} is compared with self.{compared.get(param)}(dynamic=False)" if param in compared
+                    else f"parameter {param} is not compared with the stored list"))
+    # a difference means False: every `!=` comparison guards `return False`, and the function ends in a comparison
+    guards = [n for n in ast.walk(fn) if isinstance(n, ast.If) and isinstance(n.test, ast.Compare)
+              and isinstance(n.test.ops[0], ast.NotEq)]
+    ok_guards = all(len(g.body) == 1 and isinstance(g.body[0], ast.Return) and isinstance(g.body[0].value, ast.Constant)
+                    and g.body[0].value.value is False for g in guards)
+    out.append(("scan/recycle_compares/a_difference_refuses", ok_guards, f"{len(guards)} guarded comparison(s)"))
+    return out
+
+
 # ---------------------------------------------------------------- Step.after_recycle keeps state and hash
 
 stepmod = common.stepmod
